@@ -126,6 +126,23 @@ pub fn damage(text: &str, line: usize, edit: usize, variant: usize) -> Option<St
     }
 }
 
+/// a job's fourth number is the variant of its edit, or 1000 + a packed second edit applied to the result
+/// of the first: (((line2 * 8 + edit2) * 16 + variant2) * 16 + variant1)
+pub fn pack_second(v1: usize, l2: usize, e2: usize, v2: usize) -> usize {
+    1000 + (((l2 * 8 + e2) * 16 + v2 % 16) * 16 + v1 % 16)
+}
+pub fn damage_job(text: &str, line: usize, edit: usize, variant: usize) -> Option<String> {
+    if variant < 1000 {
+        return damage(text, line, edit, variant);
+    }
+    let c = variant - 1000;
+    let (v1, c) = (c % 16, c / 16);
+    let (v2, c) = (c % 16, c / 16);
+    let (e2, l2) = (c % 8, c / 8);
+    let first = damage(text, line, edit, v1)?;
+    damage(&first, l2, e2, v2)
+}
+
 /// what the library does with a file text: ("ok" | "err" | "panic", detail)
 pub fn run_file(kind: u8, text: &str, scratch: &PathBuf, dir: &Option<PathBuf>) -> (&'static str, String) {
     let t = text.to_string();
@@ -194,7 +211,7 @@ pub fn worker() {
         };
         let v: Vec<usize> = line.split_whitespace().filter_map(|x| x.parse().ok()).collect();
         let out = if v.len() == 4 && v[0] < fs.len() {
-            match damage(&fs[v[0]].text, v[1], v[2], v[3]) {
+            match damage_job(&fs[v[0]].text, v[1], v[2], v[3]) {
                 None => json!({"o": "na"}),
                 Some(t) => {
                     let (o, d) = run_file(fs[v[0]].kind, &t, &scratch, &fs[v[0]].dir);
@@ -339,6 +356,23 @@ pub fn run(a: &Args) -> Batch {
             }
         }
     }
+    // two edits in one file (a slice in both tiers): the second edit within 40 lines of the first or anywhere
+    let ndouble = if a.thorough { 200_000 } else { a.n / 8 };
+    let mut guard = 0;
+    let mut nd = 0usize;
+    while nd < ndouble && guard < ndouble * 20 {
+        guard += 1;
+        let fi = r.below(fs.len());
+        let l = r.below(nlines[fi].max(1));
+        let (e, v) = (r.below(EDITS.len()), r.below(OUT_OF_RANGE.len()));
+        let l2 = if r.chance(1, 2) { (l + r.below(40)).min(nlines[fi].saturating_sub(1)) } else { r.below(nlines[fi].max(1)) };
+        let (e2, v2) = (r.below(EDITS.len()), r.below(OUT_OF_RANGE.len()));
+        let packed = pack_second(v, l2, e2, v2);
+        if damage_job(&fs[fi].text, l, e, packed).is_some() {
+            jobs.push((fi, l, e, packed));
+            nd += 1;
+        }
+    }
     let results = run_jobs(&jobs, &a.out, 30);
     // ---------- findings: crashes and hangs, grouped by site ----------
     let mut impl_findings = vec![];
@@ -367,11 +401,11 @@ pub fn run(a: &Args) -> Batch {
         }
     }
     for (site, (n, j, msg)) in &by_site {
-        let damaged = damage(&fs[j.0].text, j.1, j.2, j.3).unwrap_or_default();
+        let damaged = damage_job(&fs[j.0].text, j.1, j.2, j.3).unwrap_or_default();
         let dl: String = damaged.split_inclusive('\n').nth(j.1).unwrap_or("").chars().take(160).collect();
         let orig: String = fs[j.0].text.split_inclusive('\n').nth(j.1).unwrap_or("").chars().take(160).collect();
         impl_findings.push(json!({"kind": "crash_on_damaged_file", "site": site, "message": msg, "times": n, "file": fs[j.0].name, "line": j.1 + 1, "edit": EDITS[j.2],
-            "value": if j.2 == 5 { OUT_OF_RANGE[j.3 % OUT_OF_RANGE.len()] } else { "" }, "original_line": orig, "damaged_line": dl,
+            "value": if j.2 == 5 { OUT_OF_RANGE[(j.3 % 1000) % 16 % OUT_OF_RANGE.len()] } else { "" }, "second_edit": j.3 >= 1000, "original_line": orig, "damaged_line": dl,
             "job": [j.0, j.1, j.2, j.3], "classes": [format!("crash_site:{}", site)]}));
     }
     // ---------- Coq: the block parser model on damaged BDL texts ----------
@@ -407,9 +441,9 @@ pub fn run(a: &Args) -> Batch {
         agree: "agree_C18".into(),
         cases,
         impl_findings,
-        rule: "files = the shipped .ctehexml projects (parse_with_catalog + Model::try_from + as_json), legacy .cte files (bdl::Data::new), KyGananciasSolares.txt (kyg::parse) and NewBDL_O.tbl (tbl::parse), each also through hulc2model::collect_hulc_data(dir, true, true) on a copy of its project directory; edits on one line = delete, duplicate, remove the block it opens, rename the first quoted reference, first number -> text, first number -> one of 10 out-of-range values (0, -1, 13, 99999, +-1e39, 1e-46, nan, inf, 2^32), truncate the file in the middle of the line; thorough tier = every line x every edit, quick tier = a seeded slice, half of it stratified by attribute keyword / XML tag so that every kind of line meets every edit and every out-of-range value; every damaged file runs in a worker process with a 30 s watchdog; one finding per distinct crash site. Coq cases = damaged BDL texts of the smaller files: the model's block parser and hulc::bdl::build_blocks must agree on accepted / rejected and on all blocks; non-trivial = the edit fell inside the BDL text".into(),
+        rule: "files = the shipped .ctehexml projects (parse_with_catalog + Model::try_from + as_json), legacy .cte files (bdl::Data::new), KyGananciasSolares.txt (kyg::parse) and NewBDL_O.tbl (tbl::parse), each also through hulc2model::collect_hulc_data(dir, true, true) on a copy of its project directory; edits on one line = delete, duplicate, remove the block it opens, rename the first quoted reference, first number -> text, first number -> one of 10 out-of-range values (0, -1, 13, 99999, +-1e39, 1e-46, nan, inf, 2^32), truncate the file in the middle of the line; thorough tier = every line x every edit, quick tier = a seeded slice, half of it stratified by attribute keyword / XML tag so that every kind of line meets every edit and every out-of-range value; both tiers add files with two edits (the second near the first or anywhere); every damaged file runs in a worker process with a 30 s watchdog; one finding per distinct crash site. Coq cases = damaged BDL texts of the smaller files: the model's block parser and hulc::bdl::build_blocks must agree on accepted / rejected and on all blocks; non-trivial = the edit fell inside the BDL text".into(),
         stats: json!({"files": fs.len(), "lines": total_lines, "damaged_files_run": jobs.len(), "outcomes": counts, "files_by_kind": {"ctehexml": per_kind[0], "cte": per_kind[1], "kyg": per_kind[2], "tbl": per_kind[3]},
             "by_edit": EDITS.iter().enumerate().map(|(i, e)| json!({"edit": e, "converted": per_edit[i][0], "rejected": per_edit[i][1], "crashed": per_edit[i][2], "hang_or_died": per_edit[i][3]})).collect::<Vec<_>>(),
-            "distinct_crash_sites": by_site.len()}),
+            "distinct_crash_sites": by_site.len(), "files_with_two_edits": nd}),
     }
 }
